@@ -63,6 +63,8 @@ class C14(Check):
                         for v in variants:
                             if bits == 0 and v == "eb":
                                 continue
+                            if n == 5 and cls == "P" and v != "ac":
+                                continue
                             out.append(("U", n, bits, cls, v, "full" if v in FULL_VARIANTS else "lite"))
                 else:  # quick, n = 5: every graph, static queries only
                     out.append(("U", n, bits, "A", "el", "static"))
@@ -76,6 +78,8 @@ class C14(Check):
                         for v in variants:
                             if bits == 0 and v == "ed":
                                 continue
+                            if n == 4 and cls == "P" and v != "ac":
+                                continue
                             out.append(("D", n, bits, cls, v, "full" if v in FULL_VARIANTS else "lite"))
                 else:  # quick, n = 4
                     out.append(("D", n, bits, "A", "el", "static"))
@@ -86,8 +90,17 @@ class C14(Check):
                     for cls in ("A", "P"):
                         for v in T_VARIANTS if n <= 4 else ("el", "ac"):
                             out.append(("T", n, code, r, cls, v, "full"))
-        out.extend(self._family_roots())
-        return out
+        # the family roots are the expensive ones (seconds each): spread them evenly through the list so that
+        # the contiguous chunks handed to the worker processes each get a few of them
+        fam = self._family_roots()
+        stride = max(1, len(out) // max(1, len(fam)))
+        mixed = []
+        for i, r in enumerate(out):
+            if i % stride == 0 and i // stride < len(fam):
+                mixed.append(fam[i // stride])
+            mixed.append(r)
+        mixed.extend(fam[(len(out) - 1) // stride + 1:] if out else fam)
+        return mixed
 
     def _family_roots(self):
         quick = self.tier == "quick"
@@ -335,9 +348,24 @@ class C14(Check):
         letters = [("auto", True)]
         if m.weights_defined:
             letters.insert(0, ("auto", False))
-            if self.tier == "thorough" and st["cls"] in ("UndirectedGraph", "DirectedGraph", "Tree") and not st["family"]:
-                letters += [("floyd-warshall", False), ("dijkstra", False), ("bellman-ford", False), ("johnson", False)]
+            if self.tier == "thorough" and st["cls"] in ("UndirectedGraph", "DirectedGraph", "Tree") and not st["family"] and not self._largest_scope(st):
+                # scipy's own method names: the names listed in menpo's docstring ('dijkstra', 'floyd-warshall',
+                # ...) are rejected by the installed scipy (ValueError: unrecognized method) - not a C14 matter
+                letters += [("FW", False), ("D", False), ("BF", False), ("J", False)]
         return letters
+
+    @staticmethod
+    def _largest_scope(st):
+        """roots of the largest small-scope size (undirected n = 5, directed n = 4, trees n = 5): their second
+        level is reduced (see ops) and they use the default shortest-path algorithm letter only."""
+        r = st["root"]
+        return (r[0] == "U" and r[1] == 5) or (r[0] == "D" and r[1] == 4) or (r[0] == "T" and r[1] == 5)
+
+    def _mst_roots(self, st):
+        n = st["m"].n
+        if not st["family"] or n <= 12:
+            return list(range(n))
+        return sorted(set([0, 1, n // 3, n // 2, n - 2, n - 1]))
 
     def _mask_letters(self, st):
         n = st["m"].n
@@ -369,20 +397,33 @@ class C14(Check):
         if is_tree_obj:
             out.append(("tree",))
         astree = m.directed and not is_tree_obj and level == 0 and n >= 2 and st["ctor"] is not None
+        second_mask = True
+        if level >= 1 and (self._largest_scope(st) or (st["family"] and st["root"][2] > 12)):
+            # reduced second level for the largest scopes: the queries are repeated on the results that lost
+            # exactly one vertex (every graph one size smaller is among them), weighted-csr letter only,
+            # and no mask of a mask (both are explored completely from the next smaller scope)
+            n0 = st["root"][1] if not st["family"] else None
+            if st["family"] or st["root"][-2] != "ac" or n != n0 - 1:
+                return out
+            second_mask = False
         if mode == "full":
             pairs = [(s, e) for s in range(n) for e in range(n)]
-            for s, e in pairs:
-                out.append(("path", s, e))
-            for alg, unw in self._sp_letters(st):
+            # find_path / find_shortest_path are inherited unchanged by the point-carrying classes: at the largest
+            # scope they are explored on the abstract class of every graph and, for the point-carrying class, on
+            # the results of its masks (second level) only
+            if not (level == 0 and self.tier == "thorough" and self._largest_scope(st) and st["root"][0] != "T" and st["cls"].startswith("Point")):
                 for s, e in pairs:
-                    out.append(("sp", s, e, alg, unw))
+                    out.append(("path", s, e))
+                for alg, unw in self._sp_letters(st):
+                    for s, e in pairs:
+                        out.append(("sp", s, e, alg, unw))
             if not m.directed:
-                for r in range(n):
+                for r in self._mst_roots(st):
                     out.append(("mst", r))
         if astree:
             for r in range(n):
                 out.append(("astree", r))
-        if mode != "static" and st["cls"].startswith("Point"):
+        if mode != "static" and second_mask and st["cls"].startswith("Point"):
             for b in self._mask_letters(st):
                 out.append(("mask", b))
         return out
@@ -751,12 +792,14 @@ class C14(Check):
             # nothing survives: refused (a graph needs a vertex) or an empty graph
             if exc is None and int(h.n_vertices) != 0:
                 return [Failure(where, "all-false-mask", "%s returned %d vertices" % (ctx, h.n_vertices))] if verify else []
-            self.note("mask:all-false-%s" % ("raised" if exc else "empty"))
+            if verify:
+                self.note("mask:all-false-%s" % ("raised" if exc else "empty"))
             return []
         if troot is not None and not mask[troot]:
             if exc is None:
                 return [Failure(where, "root-removed-accepted", "%s returned a tree although its root was masked out" % ctx)] if verify else []
-            self.note("mask:root-removed-raised")
+            if verify:
+                self.note("mask:root-removed-raised")
             return []
         if troot is None:
             m2, keep = m.induced(mask)
@@ -781,8 +824,6 @@ class C14(Check):
         F = []
         if verify:
             self.note("mask:%s" % ("all-true" if mask.all() else "proper"))
-            if h is g:
-                F.append(Failure(where, "result-is-receiver", ctx))
             F += self._static(h, m2, pts2, st["cls"], where)
             if r2 is not None and not F:
                 F += self._tree(h, m2, r2, where)
@@ -850,13 +891,17 @@ class C14(Check):
             "directed_variants": D_VARIANTS,
             "tree_variants": T_VARIANTS,
             "full_alphabet_variants": list(FULL_VARIANTS),
-            "sp_letters": "auto x {weighted, unweighted}" + (" + floyd-warshall/dijkstra/bellman-ford/johnson (abstract classes)" if self.tier == "thorough" else ""),
+            "sp_letters": "auto x {weighted, unweighted}" + (" + FW/D/BF/J (abstract classes, below the largest scope)" if self.tier == "thorough" else ""),
         }
 
     def assumptions(self):
         return [
             "simple graphs only (no self loops); weights are distinct positive integers stored as floats, so all sums are exact",
-            "quick: every mask/pair/root for undirected n<=4, directed n<=3, trees n<=4; undirected n=5 and directed n=4 get the static queries (and Tree(root) readings) only",
+            (
+                "quick: every mask/pair/root for undirected n<=4, directed n<=3, trees n<=4; undirected n=5 and directed n=4 get the static queries (and Tree(root) readings) only"
+                if self.tier == "quick"
+                else "thorough: every mask/pair/root for undirected n<=5, directed n<=4, trees n<=5; second level (ops on the result of a mask): whole alphabet again for undirected n<=4, directed n<=3, trees n<=4 and families <= 12 vertices; for the largest scope only the queries on results that lost exactly one vertex (weighted csr letter), no mask of a mask; extra shortest-path algorithm letters only below the largest scope"
+            ),
             "construction letters other than 'el' (edge array) and 'ac' (weighted csr) get static queries, Tree(root) readings and masks only",
             "[interp] is_tree on a digraph is flagged only if True while the underlying undirected graph is not a tree, or False on an arborescence",
             "[interp] minimum_spanning_tree is judged on connected graphs with >= 2 vertices only",
@@ -865,7 +910,9 @@ class C14(Check):
             "[interp] a tree mask that leaves only the root may be refused (menpo has no one-vertex tree)",
             "[interp] what the Tree constructor does with edges that are NOT a tree rooted at the given root is not judged (Tree([[0,1]], root 1) is accepted)",
             "D25 footprint (not in known_findings.json at the time of writing): a valid rooted tree refused with 'BFS returns a different tree'",
-            "families (chains, cycles, stars, complete graphs, grids, binary trees, <= 40 vertices) replace 'random graphs'; they use structured masks, not every mask",
+            "families (chains, cycles, stars, complete graphs, grids, binary trees, <= 40 vertices) replace 'random graphs'; beyond 12 vertices they use structured masks and 6 MST roots, not every mask / root",
+            "largest scope (undirected n=5, directed n=4): the point-carrying class is built from the weighted csr letter only and its inherited find_path / find_shortest_path are explored on mask results only (they are explored on the abstract class of every graph)",
+            "shortest-path algorithm letters use scipy's names (FW, D, BF, J): the names in menpo's docstring are rejected by the installed scipy",
             "find_all_paths is compared only where the enumeration is small (n <= 5 or at most n edges)",
             "D11 footprint: cost == sum of dist(start, v) over the route without its end; D23 footprint: start == end answered [] / ([], inf)",
         ]
